@@ -269,8 +269,9 @@ func init() {
 		MinCases:    map[string]int{"quick": 30, "thorough": 60},
 		Assumptions: []string{"fault rows are read raw from the node store (there is no export of them)"}})
 	check.RegisterSpec(&check.Spec{Prop: "C20", Level: "exploration",
-		Rule:        "seeded sequences of delegate / undelegate (partial, full) / redelegate / validator creation and self-unbonding by four nodes, two third-party delegators and up to three validators, pledge add/remove around the capacity threshold, status resets, staking transactions that fail after the shares hook (amount above balance) or run out of gas mid-message; after every transaction and block the role predicate (capacity >= threshold and own delegation / validator shares >= threshold) is recomputed from staking and pledge queries for every super node, and promotions are checked against the declared status. A case is (operation, number of super nodes after it) or (promotion/demotion cause); distinct_nontrivial counts distinct cases.",
-		Jobs:        simpleJobs("C20", "staking", 6, 48, map[string]string{"ops": "200"}, map[string]string{"ops": "1200"}),
+		Rule: "seeded sequences of delegate / undelegate (partial, full) / redelegate / validator creation and self-unbonding by four nodes, two third-party delegators and up to three validators, pledge add/remove around the capacity threshold, status resets, staking transactions that fail after the shares hook (amount above balance) or run out of gas mid-message; after every transaction and block the role predicate (capacity >= threshold and own delegation / validator shares >= threshold) is recomputed from staking and pledge queries for every super node, and promotions are checked against the declared status. A case is (operation, number of super nodes after it) or (promotion/demotion cause); distinct_nontrivial counts distinct cases.",
+		Jobs: withExtra(simpleJobs("C20", "staking", 4, 32, map[string]string{"ops": "200"}, map[string]string{"ops": "1200"}),
+			simpleJobs("C20", "staking", 3, 24, map[string]string{"ops": "150", "stores": "1"}, map[string]string{"ops": "900", "stores": "1"})),
 		MinCases:    map[string]int{"quick": 12, "thorough": 20},
 		Assumptions: []string{"the role predicate is recomputed from the staking keeper's delegation and validator records"}})
 	monitorFactories["C17"] = func() []world.Monitor { return []world.Monitor{NewC17()} }
@@ -325,17 +326,16 @@ func init() {
 
 	check.RegisterSpec(&check.Spec{Prop: "C13", Level: "exploration",
 		Rule:        "seeded random walks over the order lifecycle (store/ready/complete/update/force-push/renew/terminate/cancel/migrate/claim/capacity changes, silent providers, block advance across every scheduled height); after every block all relations are evaluated on the committed state. A case is the shape (bucketed counts of orders, shards, models, pending timeouts, pending expiries) of a state on which the relations were evaluated; distinct_nontrivial counts distinct shapes with at least one order or model.",
-		Jobs:        lifeJobs("C13", 5, 64, nil),
+		Jobs:        withExtra(lifeJobs("C13", 5, 64, nil), recipes("C13", "migrated", "afterroll", "longer")),
 		MinCases:    map[string]int{"quick": 10, "thorough": 30},
 		Assumptions: []string{"state is read through the keepers' own getters over the committed multistore", "workloads reach only the states the seeded walks produce"}})
 	check.Register("recreate", scnRecreate)
-	withExtra := func(base func(string, int64) []check.Job, extra func(tier string, seed int64) []check.Job) func(string, int64) []check.Job {
-		return func(tier string, seed int64) []check.Job { return append(base(tier, seed), extra(tier, seed)...) }
-	}
+	check.Register("renewals", scnRenewRecipes)
+	check.Register("versions", scnVersions)
 	lifeRule := "seeded random walks over the order lifecycle — store (sizes around the 1e-6 price rounding, replica 1-3, durations 3600-6000, sponsored payment, owner-submitted + Ready), staggered completion with silent providers, update, force-push, renew (several in a row, shorter and longer), terminate at every phase, cancel, migrate, claim, capacity add/remove, a provider without liquid balance (debt paths) — with block advance to just before / at / after every scheduled height and a final drain across all schedules; five weight profiles. "
 	check.RegisterSpec(&check.Spec{Prop: "C04", Level: "exploration",
 		Rule:        lifeRule + "The monitor decides every store/renew charge against the quote and the rightful payer, classifies every transfer touching the order/market escrows, keeps a reference income per provider (unit price x bytes x blocks over observed holdings) and a conservation balance with a dust bound of one coin per charge/refund settlement. A case is a charge shape (size, replicas, sponsored), an ending path (expiry, rotation to renewal, terminate, cancel, timeout-cancel, replica reduction, force-push) or a claim class; distinct_nontrivial counts distinct cases.",
-		Jobs:        lifeJobs("C04", 5, 64, nil),
+		Jobs:        withExtra(lifeJobs("C04", 5, 64, nil), recipes("C04", "shorter", "queued", "migrated", "debt-release")),
 		MinCases:    map[string]int{"quick": 12, "thorough": 25},
 		Assumptions: []string{"bank transfer events are complete; prices are exact in 18 decimals"}})
 	check.RegisterSpec(&check.Spec{Prop: "C05", Level: "exploration",
@@ -358,13 +358,13 @@ func init() {
 	check.RegisterSpec(&check.Spec{Prop: "C06", Level: "exploration",
 		Rule: lifeRule + "Plus a recipe with a sponsor-paid order whose owner DID has no payment address (refund into the did module). On every block-boundary snapshot the four escrow inequalities are evaluated against liabilities recomputed from the exported records; entitled payouts that fail are flagged. A case is the bucketed shape of a state (orders, live shards, queued renewals, debts, rewards, DID balances); distinct_nontrivial counts distinct shapes.",
 		Jobs: withExtra(lifeJobs("C06", 5, 48, nil), func(tier string, seed int64) []check.Job {
-			return []check.Job{{Prop: "C06", Scenario: "sponsored-nopay", Seed: seed*472882027 + 1}}
+			return append(recipes("C06", "debt-release", "queued", "debt-expire")(tier, seed), check.Job{Prop: "C06", Scenario: "sponsored-nopay", Seed: seed*472882027 + 1})
 		}),
 		MinCases:    map[string]int{"quick": 8, "thorough": 16},
 		Assumptions: []string{"liabilities are recomputed from exported module state"}})
 	check.RegisterSpec(&check.Spec{Prop: "C07", Level: "exploration",
 		Rule:        lifeRule + "For every transaction, begin block and end block the monitor compares, per provider, coins moved to/from the node escrow with the change of recorded collateral net of debt, checks recipients, withdrawal against free capacity of the pre-state, and row bounds. A case is (operation, debts present, number of node-escrow flows) or (withdrawal: leaves zero free / capacity in use); distinct_nontrivial counts distinct cases.",
-		Jobs:        lifeJobs("C07", 5, 48, nil),
+		Jobs:        withExtra(lifeJobs("C07", 5, 48, nil), recipes("C07", "shorter", "longer", "debt-release", "debt-expire", "migrated")),
 		MinCases:    map[string]int{"quick": 10, "thorough": 20},
 		Assumptions: []string{"reward claims are decided by C08"}})
 	check.RegisterSpec(&check.Spec{Prop: "C08", Level: "exploration",
@@ -381,6 +381,7 @@ func init() {
 			for i := 0; i < cfg; i++ {
 				jobs = append(jobs, check.Job{Prop: "C08", Scenario: "config", Seed: seed*573259391 + 1000 + int64(i), Args: map[string]string{"config": fmt.Sprint(int(seed)*13 + i), "ops": "16"}})
 			}
+			jobs = append(jobs, recipes("C08", "unaligned", "unaligned")(tier, seed)...)
 			return jobs
 		},
 		MinCases:    map[string]int{"quick": 4, "thorough": 8},
@@ -388,7 +389,7 @@ func init() {
 	check.RegisterSpec(&check.Spec{Prop: "C11", Level: "exploration",
 		Rule: lifeRule + "Plus recipes: cancel / timeout / terminate (completed and in flight) followed by re-creation of the same data id and advance across the old and new scheduled heights. The monitor builds the reference timetable from accepted requests and checks existence, provider, capacity accounting, model presence and release at every block boundary. A case is a release class (renewals, migrated, term bucket), an early ending (terminate, force-push), a migration hand-over or a re-creation mode; distinct_nontrivial counts distinct cases.",
 		Jobs: withExtra(lifeJobs("C11", 5, 64, nil), func(tier string, seed int64) []check.Job {
-			var jobs []check.Job
+			jobs := recipes("C11", "queued", "afterroll", "migrated", "shorter")(tier, seed)
 			n := 1
 			if tier == "thorough" {
 				n = 8
@@ -407,6 +408,13 @@ func init() {
 		Rule: "lifecycle walks (concurrent updates through two gateways, cancels, timeouts, force-pushes) plus the authorization matrix with commit-id shapes {exact base, empty base, substring/prefix of the latest, data id embedded, separators only}; the oracle keeps an id registry and, per model, compares each accepted update's stated base with the last committed version and each history change with append-one / replace-last. A case is (accepted update: base shape, operation, model status) or (history change kind, length); distinct_nontrivial counts distinct cases.",
 		Jobs: func(tier string, seed int64) []check.Job {
 			jobs := c16life(tier, seed)
+			nv := 2
+			if tier == "thorough" {
+				nv = 12
+			}
+			for i := 0; i < nv; i++ {
+				jobs = append(jobs, check.Job{Prop: "C16", Scenario: "versions", Seed: seed*1000000007 + int64(i), Args: map[string]string{"rounds": "3"}})
+			}
 			n, rounds := 1, "1"
 			if tier == "thorough" {
 				n, rounds = 8, "2"
@@ -420,7 +428,7 @@ func init() {
 		Assumptions: []string{"history is read from the metadata query after every transaction and block"}})
 	check.RegisterSpec(&check.Spec{Prop: "C14", Level: "exploration",
 		Rule:        "same lifecycle walks; after every block the six aggregate equalities are evaluated per provider and network-wide. A case is the bucketed (providers, live shards, any renewed shard, open debts) shape of a state; distinct_nontrivial counts distinct shapes.",
-		Jobs:        lifeJobs("C14", 5, 64, nil),
+		Jobs:        withExtra(lifeJobs("C14", 5, 64, nil), recipes("C14", "shorter", "debt-release", "debt-expire", "unaligned")),
 		MinCases:    map[string]int{"quick": 6, "thorough": 12},
 		Assumptions: []string{"state is read through the keepers' own getters over the committed multistore"}})
 }
@@ -496,6 +504,26 @@ func lifeJobs(prop string, quickN, thoroughN int, extra map[string]string) func(
 				args["ops"] = "110"
 			}
 			jobs = append(jobs, check.Job{Prop: prop, Scenario: "life", Seed: seed*1000003 + int64(i), Args: args})
+		}
+		return jobs
+	}
+}
+
+func withExtra(base func(string, int64) []check.Job, extra func(tier string, seed int64) []check.Job) func(string, int64) []check.Job {
+	return func(tier string, seed int64) []check.Job { return append(base(tier, seed), extra(tier, seed)...) }
+}
+
+func recipes(prop string, modes ...string) func(tier string, seed int64) []check.Job {
+	return func(tier string, seed int64) []check.Job {
+		n := 1
+		if tier == "thorough" {
+			n = 6
+		}
+		var jobs []check.Job
+		for i := 0; i < n; i++ {
+			for _, m := range modes {
+				jobs = append(jobs, check.Job{Prop: prop, Scenario: "renewals", Seed: seed*941083987 + int64(len(jobs)) + int64(len(prop)), Args: map[string]string{"mode": m}})
+			}
 		}
 		return jobs
 	}
